@@ -178,7 +178,7 @@ func (c PageCase) paginated() bool { return c.Size > 0 && (c.MSink || c.sink() !
 
 // --- generator -----------------------------------------------------------------
 
-var pageWords = []string{"a", "be", "sea", "delta", "echoes", "foxtrot", "x", "0123456789"}
+var pageWords = []string{"a", "be", "sea", "delta", "echoes", "foxtrot", "x", "0123456789", "æøå", "日本語", "é"}
 
 func genRowText(t *rapid.T, n int) string {
 	var sb strings.Builder
